@@ -670,11 +670,14 @@ type enumC05 struct {
 	// AgedOut: remove_old_instances_interval is 1 ns - by the time the instance restarts, every snapshot in the bucket
 	// (its own included) is older than the stale-instance interval
 	AgedOut bool `json:"aged_out,omitempty"`
+	// AppLate: the application's write after the restart comes only after the restarted loop has run for 12 / 30 yields
+	// (the peer's snapshot is merged by then, the own one is still being waited for), not before its first step
+	AppLate int `json:"app_late,omitempty"`
 }
 
 func TestC05Enum(t *testing.T) {
 	vcore.RunEnum(t, vcore.Config{Property: "C05", Inflight: true,
-		Rule: "fault enumeration: instance A publishes key k (only copy), a peer B publishes k2; A is crashed at EVERY yield point (14) while it uploads a second change, restarted with the LMDB {kept, emptied}, with its own newest snapshot {downloadable, failing to load twice, followed by an undecodable newer blob, failing to load eight times while every other listing fails, only the instance's own snapshots failing to load forty times, or reported as not existing twice}; for emptied restarts also a second kill with the LMDB kept, at the first yield point or ten yields later (third life: an LMDB with data but not the data of its own snapshot); the application writes k' right after the restart; for emptied restarts with a failing own download also with remove_old_instances_interval = 1 ns (every snapshot, the own one included, counts as stale at restart); for emptied restarts additionally with storage_force_snapshot_interval = 1 ns (a periodic snapshot always overdue) x {the application writes k', writes nothing}; both loops run on; invariants as in TestC05Bucket after every bucket mutation; non-trivial = emptied restart"},
+		Rule: "fault enumeration: instance A publishes key k (only copy), a peer B publishes k2; A is crashed at EVERY yield point (14) while it uploads a second change, restarted with the LMDB {kept, emptied}, with its own newest snapshot {downloadable, failing to load twice, followed by an undecodable newer blob, failing to load eight times while every other listing fails, only the instance's own snapshots failing to load forty times, or reported as not existing twice}; for emptied restarts also a second kill with the LMDB kept, at the first yield point or ten yields later (third life: an LMDB with data but not the data of its own snapshot); the application writes k' right after the restart; for emptied restarts with a failing own download also with remove_old_instances_interval = 1 ns (every snapshot, the own one included, counts as stale at restart); for emptied restarts with a failing own download also with the application's write only 12 / 30 yields after the restart (the peer's snapshot merged, the own one still awaited); for emptied restarts additionally with storage_force_snapshot_interval = 1 ns (a periodic snapshot always overdue) x {the application writes k', writes nothing}; both loops run on; invariants as in TestC05Bucket after every bucket mutation; non-trivial = emptied restart"},
 		func(yield func(enumC05) bool) {
 			for _, native := range []bool{true, false} {
 				for _, p := range loopYieldPoints {
@@ -696,6 +699,13 @@ func TestC05Enum(t *testing.T) {
 							if !keep && (own == "fail2" || own == "own-slow") {
 								if !yield(enumC05{Native: native, Point: p, Keep: keep, Own: own, AgedOut: true}) {
 									return
+								}
+							}
+							if !keep && (own == "fail2" || own == "own-slow" || own == "own-notexist" || own == "slow+listfail") {
+								for _, late := range []int{12, 30} {
+									if !yield(enumC05{Native: native, Point: p, Keep: keep, Own: own, AppLate: late}) {
+										return
+									}
 								}
 							}
 							if !keep && (own == "ok" || own == "fail2") {
@@ -758,6 +768,9 @@ func TestC05Enum(t *testing.T) {
 				c.Ops = append(c.Ops, C05Op{Kind: "fault", Inst: 0, FKind: "load", Faults: ldf}, C05Op{Kind: "fault", Inst: 0, FKind: "list", Faults: lf})
 			}
 			c.Ops = append(c.Ops, C05Op{Kind: "crash", Inst: 0, Keep: e.Keep})
+			if e.AppLate > 0 {
+				c.Ops = append(c.Ops, C05Op{Kind: "step", Inst: 0, Steps: e.AppLate})
+			}
 			if !e.NoApp {
 				c.Ops = append(c.Ops, C05Op{Kind: "app", Inst: 0, Changes: put(3, "written-after-restart")})
 			}
